@@ -52,6 +52,8 @@ pub enum Stmt {
     SelfDestruct(Expr),
     /// revert (returning acc) if the expression is non-zero
     RevertIf(Expr),
+    /// return acc (successfully) if the expression is non-zero
+    ReturnIf(Expr),
     Revert,
     Log(Expr),
     /// copy the first 32 bytes of the code at the address and fold them
@@ -273,6 +275,16 @@ impl Asm {
                 self.op(0x5b);
                 self.patch2(at, dest);
             }
+            Stmt::ReturnIf(cond) => {
+                self.expr(cond);
+                self.op(0x15); // iszero -> skip return
+                let at = self.push2_placeholder();
+                self.op(0x57);
+                self.push_u64(0x20).push_u64(0).op(0xf3);
+                let dest = self.code.len();
+                self.op(0x5b);
+                self.patch2(at, dest);
+            }
             Stmt::Revert => {
                 self.push_u64(0x20).push_u64(0).op(0xfd);
             }
@@ -366,6 +378,7 @@ pub fn stmt_min_spec(s: &Stmt) -> SpecId {
         Stmt::Create { value, .. } => expr_min_spec(value),
         Stmt::Create2 { value, salt, .. } => SpecId::PETERSBURG.max(expr_min_spec(value)).max(expr_min_spec(salt)),
         Stmt::RevertIf(e) => SpecId::BYZANTIUM.max(expr_min_spec(e)),
+        Stmt::ReturnIf(e) => expr_min_spec(e),
         Stmt::Revert => SpecId::BYZANTIUM,
         Stmt::Stop => SpecId::FRONTIER,
     }
